@@ -473,7 +473,21 @@ def _gen_inv(rng, tier):
                          "H": _spd(rng, k, 10.0 ** rng.uniform(-1, 1)) if reg else None})
         ps, og = _geom(rng)
         sky = 0.0 if rng.random() < 0.5 else rng.uniform(-3.0, 3.0)
-        yield {"mask": m, "data": gens.reals(rng, m.shape, special=False), "noise_map": _noise(rng, m.shape),
+        data = gens.reals(rng, m.shape, special=False)
+        r = rng.random()
+        n_reg = sum(o["mapping"].shape[1] for o in objs if o["H"] is not None)
+        if r < 0.04:
+            # data that equal the sky level everywhere: the data vector is exactly 0, so is the reconstruction and with it s^T H s --
+            # an inversion is still present and the figure of merit is still the evidence
+            data = np.full(m.shape, sky)
+        elif r < 0.16 and n_reg >= 3:
+            # the unit of the linear objects is arbitrary: columns scaled by f and H by f^2 leave the model data, chi-squared and
+            # s^T H s unchanged and shift both log-determinants by 2 n ln f -- here beyond +-1500, where exp(log det / 2) leaves the
+            # floating-point range although the log-determinants themselves are modest numbers
+            k = int(np.ceil(1500.0 / (2.0 * n_reg * np.log(2.0)))) * (1 if r < 0.11 else -1)
+            f = 2.0 ** k
+            objs = [{"mapping": o["mapping"] * f, "H": None if o["H"] is None else o["H"] * f * f} for o in objs]
+        yield {"mask": m, "data": data, "noise_map": _noise(rng, m.shape),
                "objs": objs, "sky": sky, "native": bool(rng.getrandbits(1)), "pixel_scales": ps, "origin": og}
 
 
